@@ -77,8 +77,13 @@ def check_C07(run: Run):
             if W.diff(a["v"], b2["v"], 0.0) or a["err"] != b2["err"]:
                 run.violation(f"{name}: keyword call with the keywords in another order builds a different gate", {"name": name, "args": args})
             bl = CircuitBuilder(4)
-            getattr(bl, name)(*[o for o in ops] + ([Float(p)] if "f" in sig else []) + ([p] if "i" in sig else []))
-            c3 = W.w_stmt(bl.to_circuit().ir.statements[0])
+            try:
+                getattr(bl, name)(*[o for o in ops] + ([Float(p)] if "f" in sig else []) + ([p] if "i" in sig else []))
+                c3 = W.w_stmt(bl.to_circuit().ir.statements[0])
+            except Exception as ex:
+                run.violation(f"builder refuses default gate {name}{args}: {O.err_name(ex)}", {"name": name, "args": args}); continue
+            if a["err"] is not None or b["err"] is not None:
+                run.violation(f"default gate {name}{args} raised {a['err'] or b['err']}", {"name": name, "args": args}); continue
             run.count({"ways": name, "args": args}, tag="three-ways")
             if W.diff(a["v"], b["v"], 0.0) or W.diff(a["v"], c3, 0.0):
                 run.violation(f"{name}: positional, keyword and builder construction differ", {"name": name, "args": args})
@@ -157,6 +162,17 @@ def check_C08(run: Run):
         cq = rng.choice([n, 0]); tq = rng.choice([x for x in (n + 1, 1 if n > 1 else n, n + 2) if x != cq])
         gt = g.gate1(rng.choice([n, n + 1, 7]), False)["g"] if rng.random() < 0.5 else g.ctrl_anon(cq, tq, False)["g"]
         cases.append({"n": n, "g": gt, "oob": True})
+    from opensquirrel.ir import ControlledGate as _CG
+    for n in (1, 2, 3):
+        for t in range(n):
+            cases.append({"n": n, "g": W.w_gate(_CG(n, W.os_stmt(g.gate1(t, False)))), "oob": True})
+            cases.append({"n": n, "g": W.w_gate(_CG(n + 1, W.os_stmt(g.gate1(t, False)))), "oob": True})
+            if n >= 2:
+                t2 = (t + 1) % n
+                cases.append({"n": n, "g": W.w_gate(_CG(t2, _CG(n, W.os_stmt(g.gate1(t, False))))), "oob": True})
+                cases.append({"n": n, "g": W.w_gate(_CG(n, _CG(t2, W.os_stmt(g.gate1(t, False))))), "oob": True})
+                cases.append({"n": n, "g": g.matrix_gate([t, n])["g"], "oob": True})
+                cases.append({"n": n, "g": g.matrix_gate([n, t2])["g"], "oob": True})
     def cmp_mat(c, r, m):
         if m is None: return None
         if r["err"] != m["err"]: return f"get_matrix {r['err']} vs model {m['err']}"
@@ -328,6 +344,18 @@ def check_C09(run: Run):
         if r["err"] is not None: run.violation(f"a program of the supported subset raised {r['err']}", {"text": text}); continue
         d = W.diff(r["v"], exp, 1e-12)
         if d: run.violation(f"parsed circuit is not the element-wise expansion of the source: {d}", {"text": text})
+    # the public Parser class, one object parsing several programs in a row
+    from opensquirrel.parser.libqasm.parser import Parser
+    for _ in range(run.n(10, 60)):
+        ps = Parser()
+        for text, exp, a in rng.sample(good, min(4, len(good))):
+            try:
+                c_ = W.w_circuit(ps.circuit_from_string(text))
+            except Exception as ex:
+                run.violation(f"a reused Parser object raised {O.err_name(ex)} on a supported program", {"text": text}); break
+            run.count({"reused-parser": text}, tag="reused-parser")
+            if W.diff(c_, exp, 1e-12):
+                run.violation("a Parser object that already parsed another program gives a different circuit for this program", {"text": text}); break
     for text in MALFORMED:
         r = O.impl_parse(text)
         run.count({"malformed": text}, tag="malformed")
